@@ -496,7 +496,7 @@ class TopKRetrieval(base.MergeableMetric, base.HasAsAggFn):
     y_true_count = np.asarray([len(row) for row in y_true], dtype=int)
     if self.k_list:
       # The same Ks for every example, whatever else is in the batch: 1 x K.
-      k_list = np.asarray(sorted(self.k_list), dtype=int)[np.newaxis, :]
+      k_list = np.asarray(self.k_list, dtype=int)[np.newaxis, :]
       if self._input_type == InputType.MULTICLASS:
         # There is only one output: every top-K is the top-1.
         k_list = np.minimum(k_list, 1)
